@@ -207,6 +207,8 @@ impl Property for C10 {
                     // build the frames of the script
                     let mut frames_bytes: Vec<Vec<u8>> = vec![];
                     let mut item_toks: Vec<String> = vec![];
+                    // number of entries each scripted frame carries (for the mirror specification)
+                    let mut frame_values: Vec<usize> = vec![];
                     let anchor = RecordIdentifier::new(nsid, self.keys.authors[0].id(), b"");
                     for it in items {
                         let (bytes, itok) = match it {
@@ -262,13 +264,18 @@ impl Property for C10 {
                                 (f, "garbage".to_string())
                             }
                         };
+                        frame_values.push(match it {
+                            ItemSpec::SyncItems { n, .. } => *n,
+                            ItemSpec::SyncForged => 1,
+                            _ => 0,
+                        });
                         frames_bytes.push(bytes);
                         item_toks.push(itok);
                     }
                     // run
                     let handle = SyncHandle::spawn(store, None, "c10".into());
                     let peer_pk = iroh::SecretKey::from_bytes(&[3u8; 32]).public();
-                    let outcome: anyhow::Result<(String, Option<iroh_docs::store::Store>)> = rt.block_on(async {
+                    let outcome: anyhow::Result<(String, Option<iroh_docs::store::Store>, Option<String>)> = rt.block_on(async {
                         handle.open(nsid, OpenOpts::default().sync()).await?;
                         let (ours, theirs) = tokio::io::duplex(1 << 22);
                         let (mut our_r, mut our_w) = tokio::io::split(ours);
@@ -346,6 +353,7 @@ impl Property for C10 {
                             pump!(1);
                             frames_seen = wait_progress(&received);
                         }
+                        let mut script_sent_values = 0usize;
                         for (i, fb) in frames_bytes.iter().enumerate() {
                             if let Some((k, kind)) = fail {
                                 if k == i && (is_bob || k > 0) {
@@ -355,6 +363,7 @@ impl Property for C10 {
                             if their_w.write_all(fb).await.is_err() {
                                 break;
                             }
+                            script_sent_values += frame_values[i];
                             let _ = their_w.flush().await;
                             pump!(frames_seen + 1);
                             frames_seen = wait_progress(&received);
@@ -388,8 +397,14 @@ impl Property for C10 {
                         }
                         let (dec, _) = decode_chunks(&[received.clone()]);
                         let mut written = vec![];
+                        let mut script_recv_values = 0usize;
                         for d in dec {
                             if let Decoded::Frame(f) = d {
+                                script_recv_values += match &f {
+                                    Frame::Init { message, .. } => MMsg::from_real(message).value_count(),
+                                    Frame::Sync(m) => MMsg::from_real(m).value_count(),
+                                    Frame::Abort { .. } => 0,
+                                };
                                 written.push(match f {
                                     Frame::Init { namespace, message } => format!("init@{}@{}", hex(namespace.as_bytes()), msg_tok(&MMsg::from_real(&message), tok)),
                                     Frame::Sync(m) => format!("sync@{}", msg_tok(&MMsg::from_real(&m), tok)),
@@ -398,12 +413,22 @@ impl Property for C10 {
                             }
                         }
                         let mut line = format!("result={} written={}:{}", res_s, written.len(), if written.is_empty() { "-".to_string() } else { written.join("#") });
+                        // specification: on success the two sides' counts mirror each other
+                        let real_counts = if is_bob {
+                            if res_s.starts_with("ok ") { out_s.clone() } else { None }
+                        } else {
+                            res_s.strip_prefix("ok ").map(|s| s.to_string())
+                        };
+                        let mirror = real_counts.map(|c| {
+                            let want = format!("{}/{}", script_sent_values, script_recv_values);
+                            if c == want { "mirror=1".to_string() } else { format!("mirror=0:reported-recv/sent={c},peer-sent/recv={want}") }
+                        });
                         if let Some(o) = out_s {
                             line.push_str(&format!(" outcome={o}"));
                         }
-                        Ok((line, shut))
+                        Ok((line, shut, mirror))
                     });
-                    let (line, shut) = outcome?;
+                    let (line, shut, mirror) = outcome?;
                     let fail_from = fail.map(|(k, _)| k.to_string()).unwrap_or("-".into());
                     let e = if truncated { "trunc" } else { "eof" };
                     let cmd = if is_bob {
@@ -415,6 +440,9 @@ impl Property for C10 {
                     // specification: the session ended (no hang, no panic) and the acceptor can report
                     let clean = !line.contains("result=hung") && !line.contains("result=panicked") && !line.contains("outcome=unavailable");
                     lines.push(Line::oracle("sconst ended-cleanly", if clean { "ended-cleanly".to_string() } else { format!("not-clean:{}", line.split(' ').next().unwrap_or("")) }));
+                    if let Some(m) = mirror {
+                        lines.push(Line::oracle("sconst mirror=1", m));
+                    }
                     // the store afterwards (declined / failed sessions must not have changed it beyond the model)
                     let mut store = match shut {
                         Some(s) => s,
